@@ -89,7 +89,8 @@ def make_tree(rng, root):
             tree[rel] = ('d',)
             dirs.append(rel)
         elif r < 0.33:
-            tree[rel] = ('l', rng.choice(['a', '../b.txt', 'sub/x', '/abs/path', '.', 'dir/' + 'n' * 120]))
+            tree[rel] = ('l', rng.choice(['a', '../b.txt', 'sub/x', '/abs/path', '.', 'dir/' + 'n' * 120, './readme.txt', 'docs/../readme.txt',
+                                          'old/../old/./notes.txt', 'dir/', 'a//b', '..', '../..']))
         else:
             tree[rel] = ('f', rng.choice(contents) if rng.random() < 0.8 else bytes(rng.randrange(256) for _ in range(rng.choice([1, 100, 2049]))))
     for rel, v in sorted(tree.items()):
@@ -301,9 +302,35 @@ def run_fn(ctx):
     ctx.traces_validated += len(reqs)
 
 
-def dedup_collision(ctx, tmp):
-    """-scan-for-duplicates with two different same-size files whose murmur3 hashes collide (the Lean witness)"""
-    a, b = bytes.fromhex(COLLISION[0]), bytes.fromhex(COLLISION[1])
+def big_collision():
+    """two different files of more than 32 KiB whose chained murmur3 (32 KiB chunks, each hash seeding the next) collide:
+    a common first chunk and two 11-byte tails found by birthday search with the tool's own function"""
+    tool = load_tool(GENISO, 'pycdlib_genisoimage_tool')
+    block = bytes((i * 7 + 3) % 251 for i in range(32 * 1024))
+    seed = tool.mm3hash(block)
+    seen = {}
+    for i in range(2000000):
+        tail = b'rec%08d' % i
+        h = tool.mm3hash(tail, seed)
+        if h in seen:
+            return block + seen[h], block + tail
+        seen[h] = tail
+    return None
+
+
+def dedup_collision(ctx, tmp, big=False):
+    """-scan-for-duplicates with two different same-size files whose murmur3 hashes collide (the Lean witness; with
+    big=True a pair longer than the 32 KiB chunk of mm3hashfromfile)"""
+    if big:
+        pair = big_collision()
+        if pair is None:
+            ctx.notes.append('no big collision found')
+            return
+        a, b = pair
+    else:
+        a, b = bytes.fromhex(COLLISION[0]), bytes.fromhex(COLLISION[1])
+    tmp = os.path.join(tmp, 'big' if big else 'small')
+    os.makedirs(tmp)
     src = os.path.join(tmp, 'dedup')
     os.makedirs(src)
     open(os.path.join(src, 'AAA'), 'wb').write(a)
@@ -318,8 +345,8 @@ def dedup_collision(ctx, tmp):
     run_tool([EXTRACT, '-path-type', 'rockridge', '-extract-to', dest, img], tmp)
     got = read_tree(dest)
     if got.get('AAA') != ('f', a) or got.get('BBB') != ('f', b):
-        ctx.violation('C20.dedup/hash-collision', '-scan-for-duplicates links two different files of equal size and equal 32-bit hash: one of them reads the other\'s bytes',
-                      {'kind': 'dedup'})
+        ctx.violation('C20.dedup/hash-collision%s' % ('-big' if big else ''), '-scan-for-duplicates links two different files of equal size (%d bytes) and equal 32-bit hash: one of them reads the other\'s bytes' % len(a),
+                      {'kind': 'dedup', 'big': big})
 
 
 # two distinct 8-byte strings with equal murmur3-32 (found by birthday search; checked by Lean: Tools.mm3_collision)
@@ -332,6 +359,7 @@ def run(ctx):
     try:
         if COLLISION[0]:
             dedup_collision(ctx, tmp)
+            dedup_collision(ctx, tmp, big=True)
         for _ in range(60 if ctx.quick else 1500):
             case.seed = ctx.rng.randrange(2 ** 62)
             case(ctx, random.Random(case.seed), tmp)
@@ -349,7 +377,7 @@ def replay(ctx, obj):
             case.seed = r['seed']
             case(ctx, random.Random(r['seed']), tmp)
         elif r.get('kind') == 'dedup':
-            dedup_collision(ctx, tmp)
+            dedup_collision(ctx, tmp, big=bool(r.get('big')))
         else:
             run_fn(ctx)
     finally:
